@@ -14,11 +14,37 @@ pub struct Operand {
 }
 
 impl Operand {
+    fn is_lit(&self) -> bool {
+        self.form.starts_with("lit")
+    }
+    /// the literal in the spelling the form names: decimal, decimal with digit separators, hex
+    /// (lower / upper case), octal, binary -- the lexer has one code path per radix and per width
     fn literal_text(&self) -> String {
+        let abs = self.math.abs().to_string();
+        let n: u128 = abs.parse().expect("operands lie in [-2^127, 2^128)");
+        let body = match self.form {
+            "lit" => abs,
+            "lit_us" => {
+                // 1_234_567: separators every three digits from the right
+                let mut out = String::new();
+                for (i, c) in abs.chars().enumerate() {
+                    if i > 0 && (abs.len() - i) % 3 == 0 {
+                        out.push('_');
+                    }
+                    out.push(c);
+                }
+                out
+            }
+            "lit_hex" => format!("0x{:x}", n),
+            "lit_HEX" => format!("0X{:X}", n),
+            "lit_oct" => format!("0o{:o}", n),
+            "lit_bin" => format!("0b{:b}", n),
+            _ => unreachable!(),
+        };
         if self.math.neg {
-            format!("(-{})", self.math.abs())
+            format!("(-{})", body)
         } else {
-            self.math.to_string()
+            body
         }
     }
     fn value(&self) -> Value {
@@ -110,7 +136,8 @@ pub fn operands(tier: Tier) -> Vec<Operand> {
     let mut out = vec![];
     for m in int_points() {
         let s = m.to_string();
-        let mut forms: Vec<&'static str> = vec!["lit"];
+        let lits: [&'static str; 6] = ["lit", "lit_us", "lit_hex", "lit_HEX", "lit_oct", "lit_bin"];
+        let mut forms: Vec<&'static str> = lits.to_vec();
         if s.parse::<i64>().is_ok() {
             forms.push("i64");
         }
@@ -125,9 +152,10 @@ pub fn operands(tier: Tier) -> Vec<Operand> {
         }
         if tier == Tier::Quick {
             // quick: literal + narrowest + widest representation
-            let narrow = forms[1];
+            let narrow = forms[lits.len()];
             let wide = *forms.last().unwrap();
-            forms = vec!["lit", narrow];
+            forms = lits.to_vec();
+            forms.push(narrow);
             if wide != narrow {
                 forms.push(wide);
             }
@@ -135,7 +163,7 @@ pub fn operands(tier: Tier) -> Vec<Operand> {
         for f in forms {
             // the literal spelling of -2^127 is `-(2^127)`, i.e. the unary-minus defect listed in
             // known_findings.json (pinned by an upstream snapshot); it is judged by check_neg only
-            if f == "lit" && m.neg && m.bits() == 128 {
+            if f.starts_with("lit") && m.neg && m.bits() == 128 {
                 continue;
             }
             out.push(Operand { math: m.clone(), form: f });
@@ -226,13 +254,13 @@ fn range_class(b: &Big) -> &'static str {
 
 fn check_binop(env: &Environment, a: &Operand, b: &Operand, op: &str) -> (Out, Option<Failure>) {
     let mut ctx = BTreeMap::new();
-    let at = if a.form == "lit" {
+    let at = if a.is_lit() {
         a.literal_text()
     } else {
         ctx.insert("x", a.value());
         "x".to_string()
     };
-    let bt = if b.form == "lit" {
+    let bt = if b.is_lit() {
         b.literal_text()
     } else {
         ctx.insert("y", b.value());
@@ -247,9 +275,9 @@ fn check_binop(env: &Environment, a: &Operand, b: &Operand, op: &str) -> (Out, O
             "binop {} op={} lhs={}/{} rhs={}/{}",
             class,
             op,
-            if a.form == "lit" { "lit" } else { "var" },
+            if a.is_lit() { "lit" } else { "var" },
             range_class(&a.math),
-            if b.form == "lit" { "lit" } else { "var" },
+            if b.is_lit() { "lit" } else { "var" },
             range_class(&b.math)
         ),
         case: case.clone(),
@@ -287,7 +315,7 @@ fn check_binop(env: &Environment, a: &Operand, b: &Operand, op: &str) -> (Out, O
 
 fn check_neg(env: &Environment, a: &Operand) -> Option<Failure> {
     let mut ctx = BTreeMap::new();
-    let src = if a.form == "lit" {
+    let src = if a.is_lit() {
         if a.math.neg {
             format!("-(-{})", a.math.abs())
         } else {
@@ -301,7 +329,7 @@ fn check_neg(env: &Environment, a: &Operand) -> Option<Failure> {
     let ex = a.math.negate();
     let case = format!("neg {}:{}", a.form, a.math);
     let mk = |class: &str, detail: String| Failure {
-        key: format!("neg {} operand={}/{}", class, if a.form == "lit" { "lit" } else { "var" }, range_class(&a.math)),
+        key: format!("neg {} operand={}/{}", class, if a.is_lit() { "lit" } else { "var" }, range_class(&a.math)),
         case: case.clone(),
         detail,
         replay: json!({"kind": "neg", "a": a.math.to_string(), "a_form": a.form}),
@@ -501,15 +529,15 @@ fn check_cmp(env: &Environment, a: &Operand, f: f64, acc: &Acc) -> u64 {
                 truth
             };
             let mut ctx = BTreeMap::new();
-            let at = if a.form == "lit" {
+            let at = if a.is_lit() {
                 a.literal_text()
             } else {
                 ctx.insert("x", a.value());
                 "x".into()
             };
             // floats: literal when printable and the int is a literal too, else variable
-            let ft = match (a.form, float_lit(f)) {
-                ("lit", Some(l)) => l,
+            let ft = match (a.is_lit(), float_lit(f)) {
+                (true, Some(l)) => l,
                 _ => {
                     ctx.insert("f", Value::from(f));
                     "f".into()
@@ -520,7 +548,7 @@ fn check_cmp(env: &Environment, a: &Operand, f: f64, acc: &Acc) -> u64 {
             let r = catch(|| env.compile_expression(&src).and_then(|e| e.eval(Value::from_pairs(ctx.iter().map(|(k, v)| (k.to_string(), v.clone()))))));
             let case = format!("cmp {}:{} {} {:?}{}", a.form, a.math, op, f, if flipped { " flipped" } else { "" });
             let mk = |class: &str, detail: String| Failure {
-                key: format!("cmp_int_float {} int={}/{} float_mag={}", class, if a.form == "lit" { "lit" } else { "var" }, range_class(&a.math),
+                key: format!("cmp_int_float {} int={}/{} float_mag={}", class, if a.is_lit() { "lit" } else { "var" }, range_class(&a.math),
                     if f.is_infinite() { "inf" } else if f.abs() >= 9007199254740992.0 { ">=2^53" } else { "<2^53" }),
                 case: case.clone(),
                 detail,
@@ -547,6 +575,11 @@ pub fn replay_case(j: &J) -> Option<Failure> {
     let form = |s: &str| -> &'static str {
         match s {
             "lit" => "lit",
+            "lit_us" => "lit_us",
+            "lit_hex" => "lit_hex",
+            "lit_HEX" => "lit_HEX",
+            "lit_oct" => "lit_oct",
+            "lit_bin" => "lit_bin",
             "i64" => "i64",
             "u64" => "u64",
             "i128" => "i128",
@@ -755,7 +788,7 @@ pub fn main(args: Args) -> i32 {
             level: "exploration",
             tier: args.tier,
             seed: args.seed,
-            rule: format!("all ordered pairs of {} integer operands ({} boundary points of [-2^127,2^128) in every representation that holds them: literal, i64, u64, i128, u128{}) x 6 binary operators + unary minus, plus all ordered pairs of the power-of-two lattice (2^k, 2^k - 1, -2^k for every k in 0..=128; thorough also 2^k + 1 and the negated neighbours; narrowest representation) x 6 operators, adjudicated by an arbitrary-precision integer oracle (self-tested against i128 at start-up); same (a,b,op) across representations must agree; Euclid identity and range for all pairs of 33 small dyadic floats/ints in literal and variable form; 12 comparison forms for every integer operand x 29 floats against exact rational comparison. distinct non-trivial = distinct (a,op,b,integer result) tuples", operands(args.tier).len(), int_points().len(), if args.tier == Tier::Quick { "; quick keeps literal+narrowest+widest" } else { "" }),
+            rule: format!("all ordered pairs of {} integer operands ({} boundary points of [-2^127,2^128) in every representation that holds them: literal in 6 spellings (decimal, with digit separators, 0x / 0X / 0o / 0b), i64, u64, i128, u128{}) x 6 binary operators + unary minus, plus all ordered pairs of the power-of-two lattice (2^k, 2^k - 1, -2^k for every k in 0..=128; thorough also 2^k + 1 and the negated neighbours; narrowest representation) x 6 operators, adjudicated by an arbitrary-precision integer oracle (self-tested against i128 at start-up); same (a,b,op) across representations must agree; Euclid identity and range for all pairs of 33 small dyadic floats/ints in literal and variable form; 12 comparison forms for every integer operand x 29 floats against exact rational comparison. distinct non-trivial = distinct (a,op,b,integer result) tuples", operands(args.tier).len(), int_points().len(), if args.tier == Tier::Quick { "; quick keeps the literals + narrowest + widest" } else { "" }),
             exhaustive: true,
             bound: json!({"int_points": int_points().iter().map(|b| b.to_string()).collect::<Vec<_>>(), "ops": OPS}),
             assumptions: vec![
